@@ -22,6 +22,7 @@ def main(argv=None):
     a.add_argument("--tier", default="quick")
     st = sub.add_parser("selftest")
     st.add_argument("pids", nargs="*")
+    st.add_argument("-k", action="append", default=[])
     args = ap.parse_args(argv)
     warnings.simplefilter("ignore")
     seed = int(os.environ.get("VERIF_SEED", "0") or 0)
@@ -50,7 +51,7 @@ def main(argv=None):
         return rc
     if args.cmd == "selftest":
         mod = importlib.import_module("engine.selftest")
-        return mod.main(args.pids)
+        return mod.main(args.pids + ["-k" + x for x in args.k])
     return 3
 
 
